@@ -24,12 +24,16 @@ from vlib.runner import Violation, Discard, HarnessError
 
 ID = "C20"
 RULE = (
-    "cases = {spec|lib, request}: results of generated 1-3 population ModelSpecs (80%) or of the library projects hypertension/hiv/diabetes/"
-    "tb_simple/udt (20%, short runs cached per process) x a request = list of <=4 (quick) / <=5 (thorough) outputs mixing plain names, flow "
+    "cases = {spec|lib, request}: results of generated 1-3 population ModelSpecs (80%; 35% simulated with a generated program set; databook compartment "
+    "sizes scaled by one factor from 1e-12 to 1e9) or of the library projects hypertension/hiv/diabetes/"
+    "tb_simple/udt (20%, short runs cached per process, half of them with the library program book) x a request = list of <=4 (quick) / <=5 (thorough) outputs mixing plain names, flow "
     "selectors, named aggregations of homogeneous units (number-like and dimensionless), formulas; population items (names, groups, 'total', all); "
     "explicit or default output/pop aggregation methods; optional time bins (width / edges / 'all', integrate / average / default), interpolation years; "
     "result cascades (framework by name/index/None, ad hoc lists and nested dicts) and data cascades (stages over databook quantities, usually sharing "
-    "constituents) with years; 0-2 (quick) plot/export calls.  Inside check() every ordered subset of the output list and of the population list is "
+    "constituents) with years; 0-2 (quick; 0-3 with programs) plot/export/reporting calls in drawn order, some repeated (plot_series, plot_bars, plot_cascade, cascade series, export_raw, "
+    "export_results, Result.plot and, with programs, PlotData.programs for every quantity with optional bins/accumulation/plot, get_coverage, get_alloc, "
+    "get_equivalent_alloc), the Result digest (every stored array incl. the program cache) taken before and after each; every characteristic without "
+    "denominator must hold the sum of its member compartments.  Inside check() every ordered subset of the output list and of the population list is "
     "requested (exhaustive over that finite space), plus pops='total', the same request for two results in one call (both orders) and, for 0-2 further runs of the same project "
     "on other time grids (other dt / start / end), every ordered subset of the results in one call; extra databook entries in several years and year lists in drawn (unsorted) order for the data cascades.  non-trivial = (>=2 populations and the request mixes number and dimensionless outputs) or a "
     "data cascade whose stages share constituents; distinct = distinct case hash"
@@ -45,7 +49,8 @@ ASSUMPTIONS = [
 ]
 BUDGET = {"quick": 1600, "thorough": 40000}
 TIME_CAP = {"quick": 45, "thorough": 1100}
-PROFILE = {"max_pops": 3, "p_timed": 0.2, "p_junction": 0.3, "max_steps": 12, "extreme": 0.0, "characs": True, "p_transfer": 0.5}
+PROFILE = {"max_pops": 3, "p_timed": 0.2, "p_junction": 0.3, "max_steps": 12, "extreme": 0.0, "characs": True, "p_transfer": 0.5, "p_programs": 0.35}
+SCALES = [1e-12, 1e-10, 1e-8, 1e-7, 1e-6, 1e-3, 1.0, 1.0, 1.0, 1.0, 1e3, 1e6, 1e9]
 LIBS = ["hypertension", "hiv", "diabetes", "tb_simple", "udt"]
 RTOL = 1e-12
 NUMBER_CLASSES = ("N", "F", "par:number")
@@ -55,28 +60,36 @@ METHODS = [None, None, None, "sum", "average", "weighted"]
 _LIB = {}
 
 
-def lib(name):
-    if name not in _LIB:
+def lib(name, progs=False):
+    """library project on a short grid, optionally simulated with its program book (cached per process)"""
+    key = (name, bool(progs))
+    if key not in _LIB:
         import atomica as at
 
         simcase.quiet()
-        P = at.demo(name, do_run=False)
+        P = at.demo(name, do_run=False, addprogs=bool(progs))
         s = P.settings
         P.settings.update_time_vector(start=s.sim_start, end=s.sim_start + 4, dt=0.5)
-        res = P.run_sim(P.parsets[0], result_name="lib")
-        _LIB[name] = {"P": P, "res": res, "F": P.framework, "D": P.data, "V": H.vocab_from_result(P, res), "runs": {}, "grid": (s.sim_start, s.sim_end, s.sim_dt)}
-    return _LIB[name]
+        progset = instr = None
+        if progs and len(P.progsets):
+            progset = P.progsets[0]
+            instr = at.ProgramInstructions(start_year=s.sim_start + 1.0)
+        res = P.run_sim(P.parsets[0], progset, instr, result_name="lib")
+        V = H.vocab_from_result(P, res)
+        V["programs"] = sorted(progset.programs.keys()) if progset is not None else []
+        _LIB[key] = {"P": P, "res": res, "F": P.framework, "D": P.data, "V": V, "runs": {}, "grid": (s.sim_start, s.sim_end, s.sim_dt), "progset": progset, "instr": instr}
+    return _LIB[key]
 
 
-def lib_run(name, start, end, dt):
+def lib_run(name, progs, start, end, dt):
     """the library project simulated on another time grid (cached per process)"""
-    L = lib(name)
+    L = lib(name, progs)
     key = (start, end, dt)
     if key not in L["runs"]:
         P = L["P"]
         try:
             P.settings.update_time_vector(start=start, end=end, dt=dt)
-            L["runs"][key] = P.run_sim(P.parsets[0], result_name="run %d" % (len(L["runs"]) + 2))
+            L["runs"][key] = P.run_sim(P.parsets[0], L["progset"], L["instr"], result_name="run %d" % (len(L["runs"]) + 2))
         finally:
             P.settings.update_time_vector(start=L["grid"][0], end=L["grid"][1], dt=L["grid"][2])
     return L["runs"][key]
@@ -155,7 +168,7 @@ def _cascade(draw, V, for_data):
             cur = draw(st.lists(st.sampled_from(cur), min_size=1, max_size=len(cur), unique=True))
         expr = list(cur)
         cands = [x for x in V["nested"] if set(x[1]) <= set(cur)]
-        if cands and draw(st.integers(0, 3)) == 0:
+        if cands and draw(st.booleans()):
             x = draw(st.sampled_from(cands))
             expr = [x[0]] + [c for c in cur if c not in x[1]]
         pairs.append(["Stage %d" % j, expr])
@@ -169,7 +182,16 @@ def _call(draw, V, has_cascade):
         kinds += ["plot_cascade", "plot_cascade", "cascade_series", "export_results"]
     if V.get("plots"):
         kinds += ["result_plot"]
+    if V.get("programs"):
+        kinds += ["programs_plotdata"] * 4 + ["get_coverage", "get_coverage", "get_alloc", "get_equivalent_alloc", "export_results", "export_results"]
     k = draw(st.sampled_from(kinds))
+    if k == "programs_plotdata":
+        outs = draw(st.one_of(st.none(), st.lists(st.sampled_from(V["programs"]), min_size=1, max_size=3, unique=True)))
+        return [k, {"quantity": draw(st.sampled_from(["spending", "equivalent_spending", "coverage_number", "coverage_eligible", "coverage_fraction", "coverage_capacity"])), "outputs": outs, "t_bins": draw(st.sampled_from([None, None, 1.0, "all"])), "accumulate": draw(st.sampled_from([None, None, "sum", "integrate"])), "plot": draw(st.sampled_from([None, None, "series", "bars"])), "times": draw(st.integers(1, 2))}]
+    if k == "get_coverage":
+        return [k, {"quantity": draw(st.sampled_from(["fraction", "number", "eligible", "capacity"])), "year": draw(st.sampled_from([None, None, V["start"] + 1.0])), "times": draw(st.integers(1, 2))}]
+    if k in ("get_alloc", "get_equivalent_alloc"):
+        return [k, {"year": draw(st.sampled_from([None, V["start"] + 1.0])), "times": draw(st.integers(1, 2))}]
     if k == "plot_series":
         return [k, {"plot_type": draw(st.sampled_from(["line", "stacked", "proportion"])), "axis": draw(st.sampled_from(["outputs", "pops", "results"])), "data": draw(st.booleans()), "legend_mode": draw(st.sampled_from(["together", "separate", "none"])), "n_cols": draw(st.sampled_from([None, None, 2])), "binned": draw(st.booleans())}]
     if k == "plot_bars":
@@ -287,7 +309,7 @@ def requests(draw, V, tier):
         nsteps = draw(st.integers(3, 14))
         req["other_runs"].append({"dt": float(dt2), "start": float(start2), "end": float(start2 + nsteps * dt2)})
     has_c = bool(V["fw_cascades"])
-    req["calls"] = draw(st.lists(_call(V, has_c), min_size=0, max_size=2 if tier == "quick" else 4))
+    req["calls"] = draw(st.lists(_call(V, has_c), min_size=0, max_size=(3 if V.get("programs") else 2) if tier == "quick" else 5))
     return req
 
 
@@ -295,13 +317,27 @@ def requests(draw, V, tier):
 def cases(draw, tier):
     if draw(st.integers(0, 4)) == 0:
         name = draw(st.sampled_from(LIBS))
-        V = lib(name)["V"]
-        return {"lib": name, "request": draw(requests(V, tier))}
+        progs = draw(st.booleans())
+        V = lib(name, progs)["V"]
+        return {"lib": name, "lib_progs": progs, "request": draw(requests(V, tier))}
     prof = dict(PROFILE)
     if tier == "thorough":
         prof.update(max_steps=24, max_pops=4)
     spec = draw(gen_model.model_specs(prof))
-    return {"spec": spec, "request": draw(requests(H.vocab_from_spec(spec), tier))}
+    # population scale: every databook compartment size multiplied by one factor (1e-12 ... 1e9 people)
+    k = draw(st.sampled_from(SCALES))
+    if k != 1.0:
+        sized = {c["name"] for c in spec["comps"] if c.get("db")}
+        for nm in sized:
+            for d in spec["data"]["q"].get(nm, {}).values():
+                if d.get("a") is not None:
+                    d["a"] = d["a"] * k
+                if d.get("v"):
+                    d["v"] = [v * k for v in d["v"]]
+        spec["labels"] = sorted(set(spec.get("labels", [])) | {"scale:%g" % k})
+    V = H.vocab_from_spec(spec)
+    V["programs"] = [p["name"] for p in (spec.get("progs") or {}).get("progs", [])]
+    return {"spec": spec, "request": draw(requests(V, tier))}
 
 
 def strategy(tier):
@@ -529,6 +565,25 @@ def _validate(c):
         raise Discard("empty request")
 
 
+def _check_characteristics(c):
+    """a characteristic without denominator holds exactly the people of its member compartments, whatever the population scale"""
+    from atomica.model import Characteristic
+
+    n = 0
+    for pop in c.res.model.pops:
+        for x in pop.characs:
+            if not isinstance(x, Characteristic) or x.denominator is not None or x.vals is None:
+                continue
+            own = c.ref.value(pop.name, x.name)
+            parts = [np.asarray(m.vals, dtype=float) for m in x.get_included_comps()]
+            i = H.mismatch(np.asarray(x.vals, dtype=float), own, np.sum(np.abs(parts), axis=0) if parts else 0.0, RTOL)
+            if i is not None:
+                raise Violation(ID, "value/characteristic-not-sum-of-members", "%s in %s at t=%r: reported %r, member compartments %r hold %r" % (x.name, pop.name, float(c.ref.t[i]) if isinstance(i, int) else i, float(x.vals[i]) if isinstance(i, int) else None, [m.name for m in x.get_included_comps()], [float(p[i]) for p in parts] if isinstance(i, int) else None))
+            n += 1
+    if n:
+        c.labels.append("characteristic=sum-of-members")
+
+
 def _check_lists(c):
     outs, pitems = c.outputs, c.pop_items
     kw = {"project": c.P} if c.req.get("project") else {}
@@ -586,7 +641,7 @@ def _other_contexts(c):
     for i, g in enumerate(c.req.get("other_runs") or []):
         try:
             if libname:
-                res2 = lib_run(libname, g["start"], g["end"], g["dt"])
+                res2 = lib_run(libname, c.case.get("lib_progs", False), g["start"], g["end"], g["dt"])
             else:
                 spec2 = dict(c.spec, settings={"start": g["start"], "end": g["end"], "dt": g["dt"]})
                 _b2, res2 = simcase.run_spec(spec2, check_domain=False)
@@ -784,6 +839,7 @@ def _check_cascades(c):
         got = [np.asarray(v, dtype=float) for v in vals.values()]
         if len(got) != len(stages):
             raise Violation(ID, "cascade-vals/stage-count", "stages %r -> %d values" % (stages, len(got)))
+        scales = []
         for i, (_, cs) in enumerate(stages):
             tot = np.zeros(c.ref.t.shape)
             sc_ = np.zeros(c.ref.t.shape)
@@ -795,12 +851,14 @@ def _check_cascades(c):
             if year is not None:
                 tot = np.interp(tq, c.ref.t, tot, left=np.nan, right=np.nan)
                 sc_ = np.interp(tq, c.ref.t, sc_)
+            scales.append(sc_)
             if H.mismatch(got[i], tot, sc_, 1e-11) is not None:
                 raise Violation(ID, "cascade-vals/sum-of-constituents" if year is None else "cascade-vals/interpolation", "cascade %r pops %r year %r stage %d %r: got %r own %r" % (cr["cascade"], pops, year, i, cs, got[i][:4].tolist(), tot[:4].tolist()))
         for i in range(len(got) - 1):
             a, b = got[i], got[i + 1]
             with np.errstate(all="ignore"):
-                bad = np.isfinite(a) & np.isfinite(b) & (b > a + 1e-9 * np.maximum(1.0, np.abs(a)))
+                # relative to the people in the earlier stage (populations may be 1e-12 or 1e9 people)
+                bad = np.isfinite(a) & np.isfinite(b) & (b > a + 1e-9 * np.where(np.isfinite(scales[i]), scales[i], 0.0))
             if np.any(bad):
                 j = int(np.argmax(bad))
                 raise Violation(ID, "cascade-vals/increase", "cascade %r pops %r: stage %d -> %d rises %r -> %r at t=%r" % (cr["cascade"], pops, i, i + 1, float(a[j]), float(b[j]), float(tq[j])))
@@ -918,6 +976,27 @@ def _run_calls(c, dig0):
                     shutil.rmtree(tmp, ignore_errors=True)
             elif name == "result_plot":
                 c.res.plot(project=c.P)
+            elif name == "programs_plotdata":
+                for _ in range(a.get("times", 1)):
+                    d = at.PlotData.programs(c.res, outputs=a["outputs"], quantity=a["quantity"], t_bins=a["t_bins"], accumulate=a["accumulate"])
+                    for s in d.series:
+                        s.vals[...] = -9.0
+                    if a["plot"] == "series":
+                        at.plot_series(d)
+                    elif a["plot"] == "bars":
+                        at.plot_bars(d)
+            elif name == "get_coverage":
+                for _ in range(a.get("times", 1)):
+                    out = c.res.get_coverage(quantity=a["quantity"], year=a["year"])
+                    for v in out.values():
+                        if isinstance(v, np.ndarray):
+                            v[...] = -9.0
+            elif name in ("get_alloc", "get_equivalent_alloc"):
+                for _ in range(a.get("times", 1)):
+                    out = getattr(c.res, name)(year=a["year"])
+                    for v in out.values():
+                        if isinstance(v, np.ndarray):
+                            v[...] = -9.0
             elif name == "edit_series":
                 d = c.plotdata(outs, poparg)
                 for s in d.series:
@@ -959,7 +1038,7 @@ def check(case):
     simcase.quiet()
     libname = case.get("lib")
     if libname:
-        L = lib(libname)
+        L = lib(libname, case.get("lib_progs", False))
         res, P, D, F, spec = L["res"], L["P"], L["D"], L["F"], None
     else:
         spec = case["spec"]
@@ -970,6 +1049,7 @@ def check(case):
         with np.errstate(all="ignore"):
             _validate(c)
             dig0 = H.digest(res)
+            _check_characteristics(c)
             _check_lists(c)
             _check_results(c)
             _check_time(c)
@@ -983,7 +1063,7 @@ def check(case):
                 raise Violation(ID, "purity/result-modified", "after the whole request: %r changed" % (diff[:5],))
     except Violation:
         if libname:
-            _LIB.pop(libname, None)
+            _LIB.pop((libname, bool(case.get("lib_progs", False))), None)
         raise
     finally:
         plt.close("all")
